@@ -518,6 +518,7 @@ type Axiom struct {
 }
 
 type GhostField struct {
+	Counter bool // only changed by explicit contract clauses: survives havoc-all (assumption: uncontracted callees do not perform the counted operation)
 	Name string
 	Type string // int, bool, [int]int, [int]bool
 }
@@ -546,7 +547,7 @@ type SpecFile struct {
 }
 
 var clauseKeywords = map[string]bool{
-	"func": true, "interface": true, "functype": true, "spec": true, "axiom": true, "lemma": true,
+	"func": true, "interface": true, "functype": true, "fieldfunc": true, "spec": true, "axiom": true, "lemma": true,
 	"ghostfield": true, "guarded_by": true, "monitor": true, "tags": true, "requires": true, "ensures": true,
 	"modifies": true, "loop": true, "invariant": true, "decreases": true, "ghost": true, "trusted": true,
 	"inline": true, "pure": true, "ghost_at_return": true, "call": true, "const": true, "nosafety": true, "opt": true, "decoder": true, "encoder": true, "progress": true, "monitor_assume": true, "immutable": true, "private": true,
@@ -708,6 +709,11 @@ func parseFuncHeader(kind, rest, pkg string) (*Contract, error) {
 		c.Key = qual(c.Recv.Type) + "." + name
 	case "functype":
 		c.Key = qual(name)
+	case "fieldfunc": // call through a function-valued struct field: key "<pkg>.<Struct>.<field>"
+		if c.Recv == nil {
+			return nil, fmt.Errorf("fieldfunc contract needs a receiver: %q", rest)
+		}
+		c.Key = strings.TrimPrefix(qual(c.Recv.Type), "*") + "." + name
 	}
 	return c, nil
 }
@@ -759,7 +765,7 @@ func ParseSpecFile(path, pkg string, isGo, trusted bool) (*SpecFile, error) {
 			return &Clause{Kind: kind, Tags: tags, E: e, Text: body}, nil
 		}
 		switch kw {
-		case "func", "interface", "functype":
+		case "func", "interface", "functype", "fieldfunc":
 			c, err := parseFuncHeader(kw, rest, pkg)
 			if err != nil {
 				return nil, fail(i, "%v", err)
@@ -1001,10 +1007,10 @@ func ParseSpecFile(path, pkg string, isGo, trusted bool) (*SpecFile, error) {
 			}
 		case "ghostfield":
 			f := strings.Fields(rest)
-			if len(f) != 2 {
-				return nil, fail(i, "ghostfield name type")
+			if len(f) != 2 && !(len(f) == 3 && f[2] == "counter") {
+				return nil, fail(i, "ghostfield name type [counter]")
 			}
-			sf.Ghosts = append(sf.Ghosts, &GhostField{Name: f[0], Type: f[1]})
+			sf.Ghosts = append(sf.Ghosts, &GhostField{Name: f[0], Type: f[1], Counter: len(f) == 3})
 		case "const":
 			f := strings.Fields(rest)
 			if len(f) != 2 {
